@@ -239,6 +239,8 @@ def insitu_unit(u):
     nparts = u["nparts"]
     cluster = {"brokers": [1, 2], "topics": {"t": {str(p): 1 + p % 2 for p in range(nparts)},
                                              "u": {"0": 1, "1": 2}}, "meta_order": u.get("meta_order", "asc")}
+    if u.get("leaderless") is not None:
+        cluster["topics"]["t"][str(u["leaderless"])] = -1  # this partition is electing a leader
     keys = ["k%d" % i for i in range(4)]
     if u["partitioner"] == "rr":
         script = []
@@ -288,7 +290,7 @@ def insitu_unit(u):
                                           s_.key, chosen[s_.i][1], want, nparts),
                                       "input": {"insitu": u}, "check": "checks.C18"})
                 break
-    st.classes.add(_digest(("insitu", u["partitioner"], nparts, u["batched"], u.get("meta_order"))))
+    st.classes.add(_digest(("insitu", u["partitioner"], nparts, u["batched"], u.get("meta_order"), u.get("leaderless"))))
     st.samples.append({"in_situ": u, "partitions_chosen": [chosen.get(s_.i) for s_ in h.sends][:8]})
     return st
 
@@ -355,6 +357,10 @@ def run(tier, seed, only=None):
     if "insitu" in (only or ["insitu"]):
         units = [{"partitioner": p, "nparts": n, "batched": b, "meta_order": mo} for p in ("rr", "hashed")
                  for n in (1, 2, 3, 5) for b in (False, True) for mo in ("asc", "reverse", "rotate")]
+        # one partition without a leader (listed last, first or in the middle by the broker)
+        units += [{"partitioner": p, "nparts": n, "batched": False, "meta_order": mo, "leaderless": ll}
+                  for p in ("rr", "hashed") for n in (3, 5) for mo in ("asc", "reverse", "rotate")
+                  for ll in (0, 1, n - 1)]
         st = enum.run_units("checks.C18:insitu_unit", units, seed)
         enum.fold(rep, "producer-in-situ", st)
     rep.coverage["rule"] = (
@@ -362,7 +368,7 @@ def run(tier, seed, only=None):
         "and 781 text keys, pure_murmur2 and HashedPartitioner.partition compared with Kafka's Utils.murmur2 run on "
         "the JVM; rr: every sequence of partition() calls of the stated depth over the lists %r with every pair of "
         "randint answers when randomStart is on, the lists passed as fresh objects and (2 calls shorter) as one list object updated in place; in situ: the real Producer+KafkaClient on the virtual cluster with 1/2/3/5 "
-        "partitions listed by the broker in ascending, reverse and rotated order, batched and unbatched, round-robin (with sends to a second topic interleaved) and hashed.  Distinct non-trivial = distinct (len%%4, first byte, last byte, "
+        "partitions listed by the broker in ascending, reverse and rotated order (also with one partition leaderless), batched and unbatched, round-robin (with sends to a second topic interleaved) and hashed.  Distinct non-trivial = distinct (len%%4, first byte, last byte, "
         "hash low bits) classes for keys, distinct histories containing at least one list change for round robin."
         % (maxlen, ALPHA.hex(), RR_LISTS))
     rep.assumptions = [
